@@ -179,6 +179,18 @@ def execute(sc):
             V('unexpected_exception', e[0], e[1] + ' | ' + (e[2][-400:] if len(e) > 2 else ''))
     if outcome in ('finished', 'aborted') and (mpi_exc or None) != (ser_exc or None) and not res['violations']:
         V('outcome_differs', 'controller_MPI.run', f'MPI run: {mpi_exc or "finished"}, serial run: {ser_exc or "finished"}')
+    forced_any = any(w == 'done' for _, _, _, w in sc['faults'].get('force', []))
+    if forced_any:
+        # status.force_done is handled differently by the two flavours (F14): controller_MPI skips the status handshake
+        # (deadlock, or with all_to_done spreads the flag to all ranks), the serial controller makes the step wait
+        _V = V
+
+        def V(clause, site, detail, **ident):  # noqa: F811
+            if clause in ('niter_differs', 'value_differs', 'attempts_differ', 'returned_value_differs', 'logged_value_differs', 'restart_differs', 'restart_counter_differs', 'dt_differs', 'step_time_differs', 'outcome_differs'):
+                _V('forced_stop_handled_differently', 'CheckConvergence.communicate_convergence', detail, root='force_done_skips_status_handshake')
+            else:
+                _V(clause, site, detail, **ident)
+
     if outcome == 'finished' and not errors:
         node_par = S > 1
         # gather attempts of all ranks
@@ -198,7 +210,10 @@ def execute(sc):
                 V('attempts_differ', 'controller_MPI.run', f'step attempts (block, slot) only in the MPI run: {only_m[:4]}, only in the serial run: {only_s[:4]}', more_in_mpi=bool(only_m))
         sliver = any(v['clause'] == 'sliver_step_differs' for v in res['violations'])
         exact = True  # as long as every start time and step size so far agreed bitwise, values must agree bitwise as well
+        first_sliver_block = min([k[0] for k in (set(mpi_att) ^ set(ser_att))], default=None) if sliver else None
         for key in sorted(set(mpi_att) & set(ser_att)):
+            if first_sliver_block is not None and key[0] >= first_sliver_block:
+                continue  # everything after the block in which only one flavour performs the sliver step is a consequence of F13
             sa = ser_att[key]
             for node_rank, ma in mpi_att[key]:
                 if ma['t'] != sa['t'] or ma['dt'] != sa['dt']:
